@@ -429,9 +429,10 @@ impl Consumer {
         let list = |v: &Value| -> Vec<usize> {
             let l: Vec<usize> = v["v"]
                 .as_array()
-                .map(|a| a.iter().map(|x| x.as_u64().unwrap_or(1).max(1) as usize).collect())
+                .map(|a| a.iter().map(|x| x.as_u64().unwrap_or(1) as usize).collect())
                 .unwrap_or_default();
-            if l.is_empty() {
+            // (a 0 is a zero-length request; a script needs at least one real request to make progress)
+            if l.iter().all(|x| *x == 0) {
                 vec![4096]
             } else {
                 l
@@ -641,6 +642,14 @@ fn drain_read_inner<R: Read>(r: &mut R, c: &Consumer, max: usize) -> (Vec<u8>, i
             loop {
                 let n = sizes[i % sizes.len()];
                 i += 1;
+                if n == 0 {
+                    // a zero-length request: whatever it returns, it is not the end of the stream
+                    match r.read(&mut buf[..0]) {
+                        Ok(_) => continue,
+                        Err(e) if e.kind() == io::ErrorKind::Interrupted => continue,
+                        Err(e) => return (out, Err(e)),
+                    }
+                }
                 match r.read(&mut buf[..n]) {
                     Ok(0) => return (out, Ok(())),
                     Ok(k) => {
